@@ -75,12 +75,12 @@ theorem noFatal_wholeWriteF (plan : Plan) (p : Path) (d : Bytes) (i : Nat) : NoF
   | ok => rw [hp] at he; simp at he; subst he; simp [fatal]
   | short n =>
     rw [hp] at hok he
-    by_cases hn : n = d.length
+    by_cases hn : d.length ≤ n
     · simp only [if_pos hn] at he
       simp at he; subst he
       cases n with
       | zero =>
-        have : d = [] := List.eq_nil_of_length_eq_zero hn.symm
+        have : d = [] := List.eq_nil_of_length_eq_zero (Nat.le_zero.1 hn)
         subst this; simp [fatal]
       | succ k => simp [fatal]
     · simp [if_neg hn] at hok
@@ -173,7 +173,7 @@ theorem wholeWriteF_ok (plan : Plan) (p : Path) (d : Bytes) (i : Nat) (h : (whol
   | ok => rfl
   | short n =>
     rw [hp] at h
-    by_cases hn : n = d.length
+    by_cases hn : d.length ≤ n
     · simp [if_pos hn]
     · simp [if_neg hn] at h
 
@@ -452,7 +452,7 @@ theorem wholeWriteF_log (plan : Plan) (p : Path) (d : Bytes) (i : Nat) :
   cases plan i with
   | ok => rfl
   | fail => rfl
-  | short n => by_cases hn : n = d.length <;> simp [hn]
+  | short n => by_cases hn : d.length ≤ n <;> simp [hn]
 
 theorem agrees_wholeWriteF (plan : Plan) (p : Path) (d : Bytes) (i : Nat) (h : Benign (wholeWriteF plan p d i)) :
     Agrees (wholeWriteF plan p d i) [.write p d] true := by
